@@ -648,6 +648,64 @@ def field_order_harness(e):
     return {"order": list(order)}
 
 
+_REL: dict[str, Any] = {}
+
+
+def _relatives():
+    """Classes related by inheritance, some of them sharing one __name__ (a dialect module
+    re-declaring `class Name(base.Name)` is legitimate inside one module): 'instances of the same
+    class' is about the class object, not about its name or its ancestry."""
+    if not _REL:
+        import sys
+        import types
+
+        mod = types.ModuleType("vgen_relatives")
+        sys.modules["vgen_relatives"] = mod
+        src = (
+            "from dataclasses import dataclass, field\nfrom models.zoo import VBase\n\n"
+            "@dataclass(frozen=True)\nclass VRel(VBase):\n    v: int = 0\n    kid: VBase | None = None\n\nVRelBase = VRel\n\n"
+            "@dataclass(frozen=True)\nclass VRel(VRelBase):\n    pass\n\nVRelSameName = VRel\n\n"
+            "@dataclass(frozen=True)\nclass VRel(VRelBase):\n    note: str = field(default='', compare=False)\n    extra: VBase | None = None\n\nVRelSameNameNc = VRel\n\n"
+            "@dataclass(frozen=True)\nclass VRelSub(VRelBase):\n    pass\n\n"
+            "@dataclass(frozen=True)\nclass VRelSubSub(VRelSub):\n    note: str = field(default='', compare=False)\n"
+        )
+        exec(compile(src, "vgen_relatives", "exec", dont_inherit=True), mod.__dict__)
+        for k in ("VRelBase", "VRelSameName", "VRelSameNameNc", "VRelSub", "VRelSubSub"):
+            _REL[k] = mod.__dict__[k]
+    return _REL
+
+
+def relatives_harness(e):
+    from models.zoo import VLeaf
+
+    reset_all()
+    C = _relatives()
+    names = sorted(C)
+    a = e.pick(names, "left_class")
+    b = e.pick(names, "right_class")
+    with_kid = e.flag("with_child")
+    first = e.pick(["left-built-first", "right-built-first"], "order")
+
+    def mk(k):
+        return C[k](v=1, kid=VLeaf(v=2) if with_kid else None)
+
+    (x, y) = (mk(a), mk(b)) if first == "left-built-first" else tuple(reversed((mk(b), mk(a))))
+    want = a == b
+    got = (x.is_equal(y), y.is_equal(x))
+    scenario = {"kind": "class-relatives", "left_class": a, "right_class": b, "same_name": C[a].__name__ == C[b].__name__, "with_child": bool(with_kid), "is_equal": got[0], "is_equal_reversed": got[1]}
+    if got != (want, want):
+        e.fail("class-relatives:" + ("same-class-not-equal" if want else "instances-of-different-classes-are-is_equal"), scenario=scenario)
+    if C[a].__name__ != C[b].__name__ and x.content_id == y.content_id:
+        e.fail("class-relatives:different-content-same-id", scenario=scenario)
+    if want and x.content_id != y.content_id:
+        e.fail("class-relatives:equal-content-different-id", scenario=scenario)
+    for other in (None, 1, "x", (x,), object()):
+        if x.is_equal(other) is not False:
+            e.fail("class-relatives:is_equal-with-a-non-node", scenario=scenario)
+    e.distinct((a, b, bool(with_kid), first))
+    return scenario
+
+
 _MI: dict[str, Any] = {}
 
 
@@ -696,6 +754,7 @@ def spec(tier: str, seed: int) -> Spec:
     fams.append(Family("special-pairs", special_harness, variables="selector: pair from a pool of value-level cases"))
     fams.append(Family("loaded-nodes", loaded_harness, variables="selectors: payload case (edited property / value normalised by the format), format"))
     fams.append(Family("field-order", field_order_harness, variables="selector: declaration order of the class"))
+    fams.append(Family("class-relatives", relatives_harness, variables="selectors: two classes from a family related by inheritance (three of them share one __name__), child, construction order"))
     fams.append(Family("multiple-inheritance", mi_harness, variables="selectors: class used first, class, two value variants"))
     return Spec(
         families=fams,
